@@ -31,11 +31,8 @@ NOWS = [(0, 0, 30), (12, 0, 0), (23, 59, 30)]
 
 
 def jobs(tier, seed):
-    js = []
-    for zone in Z.ZONES:
-        for d in Z.dates_for(zone, tier):
-            js.append({"zone": zone, "date": d.isoformat()})
-    return js
+    # one job per zone, all its dates in sequence: anything remembered from one date to the next shows inside the job
+    return [{"zone": zone, "dates": [d.isoformat() for d in Z.dates_for(zone, tier)]} for zone in Z.ZONES]
 
 
 def check_minute(res, zone, date, now_epoch, m):
@@ -74,11 +71,17 @@ def check_minute(res, zone, date, now_epoch, m):
 
 
 def run_job(job):
+    res = Res()
+    for d in job["dates"]:
+        run_date({"zone": job["zone"], "date": d}, res)
+    return res
+
+
+def run_date(job, res):
     import datetime
 
     from aioswitcher.schedule import tools
 
-    res = Res()
     zone = job["zone"]
     date = datetime.date.fromisoformat(job["date"])
     set_zone(zone)
